@@ -213,3 +213,30 @@ def nx_relabel_nodes(eng, recv, args, node):
 
 REG.dep_classes['module:nx.algorithms'] = {'topological_sort': nx_topological_sort}
 REG.dep_classes['module:nx'] = {'relabel_nodes': nx_relabel_nodes}
+
+
+# ---- math (standard library; exact semantics over the reals - float rounding is not modelled, DESIGN section 5) -------------
+def _math_isclose(eng, recv, args, node, kwargs=None):
+    """math.isclose(a, b, rel_tol=1e-09, abs_tol=0.0): |a - b| <= max(rel_tol * max(|a|, |b|), abs_tol)"""
+    a, b = eng.num(args[0]), eng.num(args[1])
+    rel = z3.RealVal('1/1000000000')
+    ab = lambda x: z3.If(x >= 0, x, -x)
+    mx = z3.If(ab(a) >= ab(b), ab(a), ab(b))
+    return Sym('bool', z3.Or(a == b, ab(a - b) <= rel * mx))
+
+
+def _math_floor(eng, recv, args, node):
+    return Sym('num', zfloor(eng.num(args[0])), isint=True)
+
+
+def _math_ceil(eng, recv, args, node):
+    x = eng.num(args[0])
+    return Sym('num', -zfloor(-x), isint=True)
+
+
+def _math_fabs(eng, recv, args, node):
+    x = eng.num(args[0])
+    return Sym('num', z3.If(x >= 0, x, -x))
+
+
+REG.dep_classes['module:math'] = {'isclose': _math_isclose, 'floor': _math_floor, 'ceil': _math_ceil, 'fabs': _math_fabs}
